@@ -11,8 +11,9 @@ for d in sorted(glob.glob('/verif/seeded/*/meta.json')):
             l=l.strip()
             if l and not l.startswith('#'):
                 desc=l[:150]; break
-    rows.append((m['id'],m['breaks_property'],m.get('target_check_alarmed'),' '.join(m.get('alarmed',[])),desc))
-print('| seeded change | target | caught by target check | all checks that alarm | what it is |')
+    fp=m.get('final_pass',{})
+    rows.append((m['id'],m['breaks_property'],fp.get('caught', m.get('target_check_alarmed')),' '.join(m.get('alarmed',[])),desc))
+print('| seeded change | target | caught by target check (final pass) | all checks that alarm | what it is |')
 print('|---|---|---|---|---|')
 for r in rows:
     print('| %s | %s | %s | %s | %s |'%(r[0],r[1],'yes' if r[2] else '**no**',r[3],r[4].replace('|','/')))
